@@ -76,7 +76,8 @@ impl FieldAttributesInfo {
                     "The `default` field attribute is defined twice.",
                 ));
             }
-            self.default = Some(default)
+            self.default = Some(default);
+            self.default_span = other.default_span;
         }
         if let Some(missing_field_error) = other.missing_field_error {
             if let Some(self_missing_field_error) = &self.missing_field_error {
@@ -355,7 +356,8 @@ impl ContainerAttributesInfo {
                     "The `rename_all` attribute is defined twice.",
                 ));
             }
-            self.rename_all = Some(rename_all)
+            self.rename_all = Some(rename_all);
+            self.rename_all_span = other.rename_all_span;
         }
         if let Some(err_ty) = other.err_ty {
             if let Some(self_err_ty) = &self.err_ty {
@@ -373,7 +375,8 @@ impl ContainerAttributesInfo {
                     "The `tag` attribute is defined twice.",
                 ));
             }
-            self.tag = TagType::Internal(x)
+            self.tag = TagType::Internal(x);
+            self.tag_span = other.tag_span;
         }
         if let Some(x) = other.deny_unknown_fields {
             if let Some(self_deny_unknown_fields_span) = &self.deny_unknown_fields_span {
@@ -383,6 +386,7 @@ impl ContainerAttributesInfo {
                 ));
             }
             self.deny_unknown_fields = Some(x);
+            self.deny_unknown_fields_span = other.deny_unknown_fields_span;
         }
         if let Some(x) = other.from {
             if let Some(self_from) = &self.from {
@@ -420,6 +424,7 @@ impl ContainerAttributesInfo {
                 ));
             }
             self.validate = Some(x);
+            self.validate_span = other.validate_span;
         }
 
         self.generic_params.extend(other.generic_params);
@@ -693,7 +698,8 @@ impl VariantAttributesInfo {
                     "The `rename_all` attribute is defined twice.",
                 ));
             }
-            self.rename_all = Some(rename_all)
+            self.rename_all = Some(rename_all);
+            self.rename_all_span = other.rename_all_span;
         }
         if let Some(rename) = other.rename {
             if let Some(self_rename) = &self.rename {
